@@ -74,10 +74,29 @@ func c16Controller(args []string) {
 		time.Sleep(40 * time.Second)
 	default:
 		before := childPids()
-		env, err := newEnv(container.Builder{})
+		// container variants: "-cred" = the container runs programs under a user id of its own (CredGenerator) and has
+		// served file operations before the run ("for all operations in progress", in every configuration)
+		bld := container.Builder{}
+		withCred := strings.HasSuffix(mode, "-cred")
+		if withCred {
+			bld.CredGenerator = c16Cred{}
+			mode = strings.TrimSuffix(mode, "-cred")
+		}
+		env, err := newEnv(bld)
 		if err != nil {
 			fmt.Println("ERROR", err)
 			return
+		}
+		if withCred {
+			rs, _ := env.Open([]container.OpenCmd{{Path: "/w/warm", Flag: os.O_CREATE | os.O_RDWR, Perm: 0644}})
+			for _, r := range rs {
+				if r.File != nil {
+					r.File.Close()
+				}
+			}
+			env.Symlink([]container.SymbolicLink{{LinkPath: "/w/wl", Target: "/w/warm"}})
+			env.Delete("/w/wl")
+			env.Ping()
 		}
 		for p := range childPids() {
 			if !before[p] {
@@ -114,6 +133,10 @@ func c16Controller(args []string) {
 		}
 	}
 }
+
+type c16Cred struct{}
+
+func (c16Cred) Get() syscall.Credential { return syscall.Credential{Uid: 10000, Gid: 10000} }
 
 type c16Allow struct{}
 
@@ -172,7 +195,7 @@ func procsInGroup(pgid int) []int {
 }
 
 func runC16(res *Result, d *Driver, tier string, seed uint64) {
-	res.Rule = "a helper controller process (this binary) builds a container / starts a traced program whose descendants ignore signals, reports the init pid, its pid namespace and the program pid; the harness SIGKILLs the controller when it announces a protocol point (verif delay-point announcements on its stderr: host.execve.sent, host.waitForDone, container.started via the init's stderr) and at random instants, for idle / Execve (sync before and after exec) / file operations / ptrace; during the synchronisation callback of a ptrace and of a namespace launch; for the tracer used directly on a launcher with and without a seccomp filter; and for a program that creates a child with clone(CLONE_UNTRACED) (open known finding); " +
+	res.Rule = "a helper controller process (this binary) builds a container / starts a traced program whose descendants ignore signals, reports the init pid, its pid namespace and the program pid; the harness SIGKILLs the controller when it announces a protocol point (verif delay-point announcements on its stderr: host.execve.sent, host.waitForDone, container.started via the init's stderr) and at random instants, for idle / Execve (sync before and after exec) / file operations / ptrace, also for containers that run programs under their own user id and have served file operations before; during the synchronisation callback of a ptrace and of a namespace launch; for the tracer used directly on a launcher with and without a seccomp filter; and for a program that creates a child with clone(CLONE_UNTRACED) (open known finding); " +
 		"afterwards no process of the container's pid namespace, resp. of the traced program's process group, may be alive within the bound. non-trivial = every case; distinct = (mode, kill point)."
 	rng := NewRng(seed, "C16", 1)
 	self, _ := os.Executable()
@@ -194,6 +217,7 @@ func runC16(res *Result, d *Driver, tier string, seed uint64) {
 	for _, p := range []string{"host.execve.sent", "host.waitForDone"} {
 		cases = append(cases, kc{"execve", p}, kc{"execve-syncafter", p})
 	}
+	cases = append(cases, kc{"execve-cred", "random"}, kc{"execve-cred", "host.waitForDone"}, kc{"execve-syncafter-cred", "host.waitForDone"}, kc{"idle-cred", "random"}, kc{"fileops-cred", "random"})
 	reps := 1
 	if tier == "thorough" {
 		reps = 20
